@@ -120,21 +120,16 @@ class WBS:
         cloned_tasks = {task.id: task.clone() for task in all_tasks.values()}
 
         # Some tasks in WBS can have predecessors or successors outside WBS (i.e. from another project).
-        # This predecessors/successors should not be copied.
-        for t in all_tasks.values():
-            for pr in t.predecessors:
-                if pr.wbs != self:
-                    cloned_tasks.setdefault(pr.id, pr)
-            for sc in t.successors:
-                if sc.wbs != self:
-                    cloned_tasks.setdefault(sc.id, sc)
-
+        # This predecessors/successors should not be copied: the copy is linked with the same outside task
+        # (ids are unique inside one WBS only, so an outside task must not be looked up by its id).
         for t in all_tasks.values():
             c = cloned_tasks[t.id]
             c.parent = cloned_tasks.get(all_tasks[t.id].parent.id) if all_tasks[t.id].parent else None
             c.children = [cloned_tasks[ch.id] for ch in all_tasks[t.id].children]
-            c.predecessors = [cloned_tasks[ch.id] for ch in all_tasks[t.id].predecessors if ch.id in cloned_tasks]
-            c.successors = [cloned_tasks[ch.id] for ch in all_tasks[t.id].successors if ch.id in cloned_tasks]
+            c.predecessors = [ch if ch.wbs != self else cloned_tasks[ch.id]
+                              for ch in all_tasks[t.id].predecessors if ch.wbs != self or ch.id in cloned_tasks]
+            c.successors = [ch if ch.wbs != self else cloned_tasks[ch.id]
+                            for ch in all_tasks[t.id].successors if ch.wbs != self or ch.id in cloned_tasks]
 
         return cloned_tasks
 
